@@ -19,7 +19,9 @@ if rnd == 4:
     extra = open("/verif/tools/agent_prompt_round4.tmpl").read().rstrip("\n")
 if rnd == 5:
     extra = open("/verif/tools/agent_prompt_round5.tmpl").read().rstrip("\n")
-if rnd >= 6:
+if rnd == 6:
     extra = open("/verif/tools/agent_prompt_round6.tmpl").read().rstrip("\n")
+if rnd >= 7:
+    extra = open("/verif/tools/agent_prompt_round7.tmpl").read().rstrip("\n")
 open("/tmp/agent%d-%s.txt" % (rnd, pid), "w").write(tmpl.replace("@ID@", pid).replace("@PROP@", prop).replace("@PKGS@", " ".join(pkgs)).replace("@EXTRA@", extra))
 print("/tmp/agent%d-%s.txt" % (rnd, pid))
